@@ -39,10 +39,16 @@ func (self *Interpreter) callFunc(span errors.Span, val value.Value, args []ast.
 			self.switchModule(fn.Module)
 		}
 
+		// A function sees the globals of its module and its own locals, not the locals of its caller.
+		calleeModule := self.currentModule
+		callerScopes := calleeModule.scopes
+		calleeModule.scopes = []map[string]*value.Value{callerScopes[0]}
+
 		self.callStackSize++
 		self.pushScope()
 		defer func() {
 			self.popScope()
+			calleeModule.scopes = callerScopes
 			self.callStackSize--
 			if previousModule != nil {
 				self.switchModule(*previousModule)
